@@ -14,6 +14,20 @@ var checks = map[string][]HarnessSpec{
 	"C04": {
 		{Name: "verifC04Rules", Pkg: ".", Labels: []string{"ran"}},
 	},
+	"C05": {
+		{Name: "verifC05Raw", Pkg: ".", Labels: []string{"passed", "refused"}},
+		{Name: "verifC05Ext", Pkg: ".", Labels: []string{"passed", "refused", "valid"}},
+		{Name: "verifC05Structured", Pkg: ".", Labels: []string{"passed", "valid"}},
+	},
+	"C06": {
+		{Name: "verifC06History", Pkg: ".", Labels: []string{"setup", "retry-ok", "retry-abort", "done"}},
+	},
+	"C07": {
+		{Name: "verifC07ReadPipe", Pkg: ".", Labels: []string{"drained"}},
+		{Name: "verifC07WritePipe", Pkg: ".", Labels: []string{"written", "write-failed"}},
+		{Name: "verifC07WriteStep", Pkg: ".", Labels: []string{"step"}},
+		{Name: "verifC07LegalLengths", Pkg: ".", Labels: []string{"read", "write"}},
+	},
 	"C08": {
 		{Name: "verifC08Raw", Pkg: ".", Labels: []string{"newconn-ok", "newconn-error", "reads-done"}},
 		{Name: "verifC08Ext", Pkg: ".", Labels: []string{"newconn-ok", "newconn-error"}},
